@@ -200,8 +200,23 @@ def _czrc(v):
     return 1900 + yy if yy >= 54 else 2000 + yy
 
 
+def _no(v):
+    # Norwegian birth numbers (Skatteetaten): individual number 000-499 -> 1900-1999; 500-749 with yy >= 54 -> 1854-1899;
+    # 500-999 with yy < 40 -> 2000-2039; 900-999 with yy >= 40 -> 1940-1999
+    yy, ind = int(v[4:6]), int(v[6:9])
+    if ind < 500:
+        return 1900 + yy
+    if ind < 750 and yy >= 54:
+        return 1800 + yy
+    if yy < 40:
+        return 2000 + yy
+    if ind >= 900:
+        return 1900 + yy
+    return None
+
+
 YEAR_RULES = {
-    'stdnum.cz.rc': _czrc, 'stdnum.sk.rc': _czrc,
+    'stdnum.cz.rc': _czrc, 'stdnum.sk.rc': _czrc, 'stdnum.no.fodselsnummer': _no,
     'stdnum.dk.cpr': _dk, 'stdnum.ee.ik': _ee, 'stdnum.lt.asmens': _ee, 'stdnum.ro.cnp': _ro, 'stdnum.si.emso': _si,
     'stdnum.bg.egn': _bg, 'stdnum.pl.pesel': _pl, 'stdnum.lv.pvn': _lv, 'stdnum.fi.hetu': _fi, 'stdnum.kr.rrn': _kr,
     'stdnum.cu.ni': _cu, 'stdnum.mx.curp': _mx, 'stdnum.cn.ric': lambda v: int(v[6:10]),
